@@ -5,6 +5,7 @@ import Proofs.Lemmas.Router.Frame
 import Proofs.Lemmas.Router.Rp3_ReqRun
 import Proofs.Lemmas.Router.Rp1_Ack
 import Proofs.Lemmas.Router.Rp2_Payload
+import Proofs.Lemmas.Router.Rp5_Reach
 namespace C17
 open Router Router.Rp3 CommitLog
 
@@ -184,6 +185,42 @@ theorem at_most_one_member_sweeps (s s' : RState) (id : Nat) (c : Conn) (req req
     intro m hm
     rw [hcur]
     exact consecutive_reads_disjoint fd hist hrep g.cursor n m hiss (by omega) (by omega)
+
+/-- C17.1 / C17.2 at sweep level for reachable states, WITHOUT the `Issued` / well-formedness
+    hypothesis (`CursorSound`, `C01.cursor_sound`): the request is taken from the tracker of the
+    connection that holds the turn, in a reachable state below the no-overflow bound. -/
+theorem at_most_one_member_sweeps_reachable {cfg : Config} (h1 : 1 ≤ cfg.maxSegmentSize) (h2 : 1 ≤ cfg.maxSegmentCount)
+    {s : RState} (hr : Reachable cfg s) (hno : NoOverflow s)
+    (s' : RState) (id : Nat) (c : Conn) (req req' : DataRequest)
+    (st : ConsumeStatus) (gname : String) (g : SharedGroup)
+    (hc : getConn s id = some c) (hreq : req ∈ c.tracker.requests)
+    (hgn : req.group = some gname) (hg : alookup gname s.shared = some g)
+    (hturn : some c.clientId = g.current)
+    (h : forwardDeviceData s id req = .ok (s', req', st)) (hst : st ≠ .inflightFull) :
+    ∃ (n : Nat) (fd : FilterData),
+      s.datalog.native[req.filterIdx]? = some fd ∧ s'.datalog.native[req.filterIdx]? = some fd ∧
+      readOffsets fd g.cursor n = List.range' (cursorAbs (logC fd.log) g.cursor) (readOffsets fd g.cursor n).length ∧
+      ((fd.log.readv g.cursor n).1 ≠ [] →
+        ∃ g', alookup gname s'.shared = some g' ∧ Issued (logC fd.log) g'.cursor ∧
+          ∀ (m : Nat), m ≤ MAX_INFLIGHT + s.config.maxOutgoingPacketCount →
+            ∀ o1 ∈ readOffsets fd g.cursor n, ∀ o2 ∈ readOffsets fd g'.cursor m, o1 < o2) := by
+  obtain ⟨fd, hist, hfd, hrep, _, hU, hgrp⟩ := tracked_request_sound h1 h2 hr hno hc hreq
+  refine at_most_one_member_sweeps s s' id c req req' st gname g hc hgn hg hturn h hst fun fd' hfd' => ?_
+  rw [hfd] at hfd'; cases hfd'
+  exact ⟨hist, hrep, hgrp gname g hgn hg, hU⟩
+
+/-- the start premise `GroupAt` of `at_most_one_member_partial` holds in every reachable state (below
+    the no-overflow bound) for a group that a tracked request reads through, as long as the group
+    cursor's segment is retained (the retention proviso is the only premise left) -/
+theorem group_at_of_reachable {cfg : Config} (h1 : 1 ≤ cfg.maxSegmentSize) (h2 : 1 ≤ cfg.maxSegmentCount)
+    {s : RState} (hr : Reachable cfg s) (hno : NoOverflow s) {id : Nat} {c : Conn} {req : DataRequest}
+    {gname : String} {g : SharedGroup}
+    (hc : getConn s id = some c) (hreq : req ∈ c.tracker.requests)
+    (hgn : req.group = some gname) (hg : alookup gname s.shared = some g)
+    (hret : ∀ fd, s.datalog.native[req.filterIdx]? = some fd → (logC fd.log).head ≤ g.cursor.1) :
+    GroupAt gname req.filterIdx s g.cursor := by
+  obtain ⟨fd, hist, hfd, hrep, _, hU, hgrp⟩ := tracked_request_sound h1 h2 hr hno hc hreq
+  exact ⟨g, fd, hist, hg, rfl, hfd, hrep, hgrp gname g hgn hg, hret fd hfd, hU⟩
 
 /-! ### history level -/
 
